@@ -2208,6 +2208,13 @@ def lex_tokens(line):
 
 # helper for parsing immediates since they occur in multiple places
 def parse_immediate(imm, line):
+    try:
+        return parse_immediate_tokens(imm, line)
+    except (ValueError, IndexError):
+        raise AssemblerError('malformed immediate value: "{}"'.format(' '.join(imm)), line)
+
+
+def parse_immediate_tokens(imm, line):
     if len(imm) == 0:
         raise AssemblerError('empty immediate value', line)
 
@@ -2881,10 +2888,13 @@ def transform_compressible(items, constants, labels):
 
         # check if any set of criteria is all true for this item
         compressed = None
-        for name, preds in criteria.items():
-            if all(pred(item, position, env) for pred in preds):
-                compressed = name
-                break
+        try:
+            for name, preds in criteria.items():
+                if all(pred(item, position, env) for pred in preds):
+                    compressed = name
+                    break
+        except ValueError as e:
+            raise AssemblerError(str(e), item.line)
 
         # swap out the instruction for its compressed counterpart
         if compressed is not None:
@@ -3253,14 +3263,20 @@ def resolve_sequences(items):
             new_items.append(item)
             continue
 
-        values = [int(value, base=0) for value in item.values]
+        try:
+            values = [int(value, base=0) for value in item.values]
+        except ValueError as e:
+            raise AssemblerError(str(e), item.line)
 
         data = bytearray()
         for value in values:
             fmt = endianness + formats[item.name]
             if value < 0:
                 fmt = fmt.lower()
-            value = struct.pack(fmt, value)
+            try:
+                value = struct.pack(fmt, value)
+            except struct.error as e:
+                raise AssemblerError(str(e), item.line)
             data.extend(value)
         blob = Blob(item.line, bytes(data))
         new_items.append(blob)
@@ -3304,7 +3320,10 @@ def resolve_packs(items):
             new_items.append(item)
             continue
 
-        data = struct.pack(item.fmt, item.imm)
+        try:
+            data = struct.pack(item.fmt, item.imm)
+        except struct.error as e:
+            raise AssemblerError(str(e), item.line)
         blob = Blob(item.line, data)
         new_items.append(blob)
 
